@@ -326,27 +326,6 @@ func shrink(doc, q bson.D) bson.D {
 	return q
 }
 
-// hasNullType reports whether a $type argument names the null type.
-func hasNullType(v interface{}) bool {
-	switch x := v.(type) {
-	case string:
-		return x == "null"
-	case int32:
-		return x == 10
-	case int64:
-		return x == 10
-	case float64:
-		return x == 10
-	case bson.A:
-		for _, m := range x {
-			if hasNullType(m) {
-				return true
-			}
-		}
-	}
-	return false
-}
-
 // classify names the operator and the reason class of a shrunk in-domain disagreement.
 func classify(doc, q bson.D, impl string) string {
 	if len(q) != 1 {
@@ -361,27 +340,15 @@ func classify(doc, q bson.D, impl string) string {
 		return "spec:literal:unexplained"
 	}
 	op := od[0].Key
-	switch op {
-	case "$type":
-		if hasNullType(od[0].Value) && impl == `{"ok":true}` {
-			return "spec:$type:null-matches-missing"
-		}
-	}
 	dir := "impl-true"
 	if impl != `{"ok":true}` {
 		dir = "impl-false"
 	}
 	switch op {
-	case "$exists":
-		return "spec:$exists:" + dir
-	case "$size":
+	case "$size": // known finding D3
 		return "spec:$size:" + dir
-	case "$all":
+	case "$all": // known finding D5
 		return "spec:$all:" + dir
-	case "$elemMatch":
-		if ed, ok := od[0].Value.(bson.D); ok && len(ed) > 0 && !strings.HasPrefix(ed[0].Key, "$") {
-			return "spec:$elemMatch-fields:" + dir
-		}
 	}
 	return "spec:" + op + ":unexplained"
 }
@@ -440,7 +407,10 @@ func specCase(doc, q bson.D) run.Case {
 	return c
 }
 
-// specCorpus: directed pairs — one per known in-domain deviation class plus their agreeing neighbours.
+// specCorpus: directed pairs — the witnesses of the deviation classes found so far (D1 $type null, D2 $exists over
+// empty-array candidates, D4 $elemMatch on non-documents: fixed in the code, must agree now; D3 $size below two
+// fan-outs, D5 $all over array-valued fan-out candidates: known findings; D6 decimal $exists argument, D7 $all with an
+// array member: outside the core domain) plus their agreeing neighbours.
 func specCorpus() []run.Case {
 	D := func(kv ...interface{}) bson.D {
 		d := bson.D{}
